@@ -54,6 +54,16 @@ def gen(ls, tier, rng):
             if tier != "thorough" and isinstance(rs, slice) and isinstance(cs, slice) and rng.random() < 7 / 8: continue
             yield R, (rs if cs is None else (rs, cs))
     yield R, ()
+    # bounds and steps at the edge of the 32-bit range (legal in both index-width configurations)
+    M = 2 ** 31 - 1
+    HB = [None, M, -M, -M - 1, M - 1, 2]
+    for rs in [slice(None), Ellipsis] + ([[nr - 1, 0]] if nr else []):
+        for a in HB:
+            for b in HB:
+                for st in (None, 1, 2, -1, -2, M, -M):
+                    if a in (None, 2) and b in (None, 2) and st in (None, 1, 2, -1, -2): continue
+                    if tier != "thorough" and rng.random() < .5: continue
+                    yield R, (rs, slice(a, b, st))
 
 
 def impl_chunk(args):
@@ -122,8 +132,68 @@ def same_object_stage(Rn, tier, rng):
                               py=f"d = RaggedArray({B})[{l1!r}]; d[{idx!r}]; d.{mid}; d[{idx!r}]   vs the same on RaggedArray({rows})")
 
 
+def spellings_stage(Rn, tier, rng):
+    """numpy's other spellings of the same index: 1-tuples, numpy integer scalars, 0-d arrays, integer / boolean ndarrays for lists, an Ellipsis
+    between the row and the column selector; each must read what the plain spelling reads (the oracle is asked the plain spelling)"""
+    import numpy as np
+    from npstructures import RaggedArray
+    def canon(x):
+        if isinstance(x, RaggedArray): return [2, x.tolist()]
+        if isinstance(x, np.ndarray): return [1, x.tolist()] if x.ndim else [0, x.item()]
+        return [0, int(x)]
+    def arr(x):
+        return np.array(x) if x else np.array([], dtype=int)
+    cases = []
+    for ls in SHAPES:
+        R = []; c = 0
+        for l in ls: R.append(list(range(c, c + l))); c += l
+        nr = len(R); mx = max(ls) if ls else 0
+        ints = sorted({0, nr - 1, -1, -nr, nr, -nr - 1}) if nr else [0]
+        lists = [[0], [nr - 1, 0], [-1, -1, 0]] if nr else [[]]
+        masks = [[(i % 2 == 0) for i in range(nr)]] if nr else []
+        slices = [slice(None, None, -1), slice(1, None), slice(None, None, 2)]
+        csels = [0, -1, slice(None, 2), slice(None, None, -1), slice(1, None, 2)]
+        for i in ints:
+            for name, sp in (("(i,)", (i,)), ("np.int64(i)", np.int64(i)), ("np.array(i)", np.array(i)), ("(np.int32(i),)", (np.int32(i),))):
+                cases.append((R, i, name, sp))
+            for cs in csels:
+                for name, sp in (("(i, ..., c)", (i, Ellipsis, cs)), ("(np.int64(i), c)", (np.int64(i), cs if not isinstance(cs, int) else np.int64(cs)))):
+                    cases.append((R, (i, cs), name, sp))
+        for l in lists:
+            for name, sp in (("np.array(list)", arr(l)), ("(list,)", (l,)), ("(np.array(list),)", (arr(l),)), ("np.array(list, int32)", np.array(l, dtype=np.int32))):
+                cases.append((R, l, name, sp))
+            for cs in csels:
+                if isinstance(cs, int): continue
+                cases.append((R, (l, cs), "(np.array(list), ..., c)", (arr(l), Ellipsis, cs)))
+        for m in masks:
+            cases.append((R, m, "(np.array(mask),)", (np.array(m),)))
+            for cs in csels:
+                if isinstance(cs, int): continue
+                cases.append((R, (m, cs), "(np.array(mask), ..., c)", (np.array(m), Ellipsis, cs)))
+        for sl in slices:
+            cases.append((R, sl, "(slice,)", (sl,)))
+            for cs in csels:
+                cases.append((R, (sl, cs), "(slice, ..., c)", (sl, Ellipsis, cs)))
+        cases.append((R, (), "()", ()))
+        ne = [i for i, l in enumerate(ls) if l > 0]
+        if ne:   # (row array, column array) pairs with negative entries; the arrays are the caller's
+            rl = [ne[0], ne[-1], ne[0] - nr]; cl = [-1, 0, -ls[ne[0]]]
+            cases.append((R, (rl, cl), "(np.array(rows), np.array(cols))", (np.array(rl), np.array(cl))))
+    lines = ["getitem " + show(R) + " " + show(enc_index(idx)) for R, idx, _, _ in cases]
+    out = oracle(lines)
+    for (R, idx, name, sp), line, o in zip(cases, lines, out):
+        if o.startswith("ERR"): m = s_ = "oracle-error: " + o[:80]
+        else: m, s_ = parse(o)
+        before = [x.copy() for x in sp if isinstance(x, np.ndarray)] if isinstance(sp, tuple) else ([sp.copy()] if isinstance(sp, np.ndarray) else [])
+        impl = guarded(lambda: canon(RaggedArray(R, dtype=int)[sp]))
+        after = [x for x in sp if isinstance(x, np.ndarray)] if isinstance(sp, tuple) else ([sp] if isinstance(sp, np.ndarray) else [])
+        if any(not np.array_equal(b, a) for b, a in zip(before, after)): impl = ["the index arrays were modified", [a.tolist() for a in after]]
+        Rn.record(line + " spelled " + name, impl, m, s_, len(R) >= 2, "spelling/" + name, py=f"RaggedArray({R})[{sp!r}]   (plain spelling: {idx!r})")
+
+
 def run(Rn, tier, rng):
     from harness import c06
+    spellings_stage(Rn, tier, rng)
     c06._run_chains(Rn, tier, rng)          # the same index grammar on lazily derived arrays ("for every ragged array")
     same_object_stage(Rn, tier, rng)
     items, lines, impl = collect(tier, rng)
